@@ -194,13 +194,10 @@ func ruleFlatten(w *World, r *Report) {
 					}
 				}
 				leaf := func(fs []Fact) bool {
-					for _, f := range fs {
+					return someFact(fs, func(f Fact) bool {
 						n, kc, isEq, okk := k.kindTest(f.Cond)
-						if okk && childNode(n) && isEq == f.Truth && (kc == k.constant || kc == k.variable) {
-							return true
-						}
-					}
-					return false
+						return okk && childNode(n) && isEq == f.Truth && (kc == k.constant || kc == k.variable)
+					})
 				}
 				isLeaf := leaf(facts) || everyEdgeInto(call.Block(), leaf)
 				r.Check(one && isLeaf, rule, pos, name, "append(list, child)", "the child itself is kept, only when it is a constant or variable leaf", "a child that is not a leaf is kept as is without the whole pass giving up, or something other than the child is appended")
